@@ -126,6 +126,94 @@ func (f *fakeCLN) serve(conn net.Conn) {
 	}
 }
 
+// buildFunding is what the simulated node wallet does for "fund a transaction paying amount to addr": coin
+// selection (number of inputs, native or P2SH-wrapped segwit coins), output order and change by the wallet's layout
+// hooks, a PSBT with the spent outputs' values, and the signed form.
+func (b *BtcWallet) buildFunding(addr string, amount uint64) (*clnPrepared, *psbt.Packet, error) {
+	n := b.n
+	dec, err := btcutil.DecodeAddress(addr, BtcParams)
+	if err != nil {
+		return nil, nil, err
+	}
+	pk, _ := txscript.PayToAddrScript(dec)
+	n.w.mu.Lock()
+	bal := n.Cfg.BtcBalance
+	n.w.mu.Unlock()
+	if amount > bal {
+		return nil, nil, fmt.Errorf("Could not afford %dsat using all %d available UTXOs", amount, 1)
+	}
+	inputs, swapIdx, changeOuts := 1, 0, 1
+	if b.FundingLayout != nil {
+		inputs, swapIdx, changeOuts = b.FundingLayout()
+	}
+	nested := b.NestedInputs != nil && b.NestedInputs()
+	unsigned := wire.NewMsgTx(2)
+	for i := 0; i < inputs; i++ {
+		var h chainhash.Hash
+		rand.Read(h[:])
+		unsigned.AddTxIn(wire.NewTxIn(wire.NewOutPoint(&h, uint32(i)), nil, nil))
+	}
+	total := changeOuts + 1
+	if swapIdx >= total {
+		swapIdx = total - 1
+	}
+	var extraVal int64
+	var extraBefore bool
+	if b.SameScriptExtra != nil {
+		extraVal, extraBefore = b.SameScriptExtra(amount)
+	}
+	outSum := int64(0)
+	add := func(v int64, s []byte) { unsigned.AddTxOut(wire.NewTxOut(v, s)); outSum += v }
+	for i := 0; i < total; i++ {
+		if i == swapIdx {
+			if extraVal > 0 && extraBefore {
+				add(extraVal, pk)
+			}
+			add(int64(amount), pk)
+			if extraVal > 0 && !extraBefore {
+				add(extraVal, pk)
+			}
+			continue
+		}
+		_, cs := b.newAddr()
+		v := b.ChangeValue
+		if v == 0 {
+			v = 10_000 + int64(i)*777
+		}
+		add(v, cs)
+	}
+	// wallet inputs: native segwit, or P2SH-wrapped segwit (an old wallet): the latter get a scriptSig when
+	// signed, so the txid of the signed transaction differs from the hash of the unsigned one
+	packet, err := psbt.NewFromUnsignedTx(unsigned.Copy())
+	if err != nil {
+		return nil, nil, err
+	}
+	fee := int64(700 + 150*inputs)
+	signed := unsigned.Copy()
+	for i := range unsigned.TxIn {
+		var kh [20]byte
+		rand.Read(kh[:])
+		p2wpkh, _ := txscript.NewScriptBuilder().AddOp(txscript.OP_0).AddData(kh[:]).Script()
+		utxoScript := p2wpkh
+		if nested {
+			utxoScript, _ = txscript.NewScriptBuilder().AddOp(txscript.OP_HASH160).AddData(btcutil.Hash160(p2wpkh)).AddOp(txscript.OP_EQUAL).Script()
+			packet.Inputs[i].RedeemScript = p2wpkh
+			signed.TxIn[i].SignatureScript, _ = txscript.NewScriptBuilder().AddData(p2wpkh).Script()
+		}
+		val := (outSum + fee) / int64(inputs)
+		if i == 0 {
+			val += (outSum + fee) % int64(inputs)
+		}
+		packet.Inputs[i].WitnessUtxo = wire.NewTxOut(val, utxoScript)
+		signed.TxIn[i].Witness = wire.TxWitness{bytes.Repeat([]byte{0x30}, 71), bytes.Repeat([]byte{0x02}, 33)}
+	}
+	b64, err := packet.B64Encode()
+	if err != nil {
+		return nil, nil, err
+	}
+	return &clnPrepared{unsigned: serTx(unsigned), signed: serTx(signed), txid: signed.TxHash().String(), psbt: b64, amount: amount}, packet, nil
+}
+
 func serTx(tx *wire.MsgTx) string {
 	var buf bytes.Buffer
 	tx.Serialize(&buf)
@@ -170,87 +258,10 @@ func (f *fakeCLN) lightningd(req rpcReq) (any, error) {
 			addr = a
 			amount, _ = strconv.ParseUint(strings.TrimSuffix(v, "sat"), 10, 64)
 		}
-		dec, err := btcutil.DecodeAddress(addr, BtcParams)
+		pr, _, err := b.buildFunding(addr, amount)
 		if err != nil {
 			return nil, err
 		}
-		pk, _ := txscript.PayToAddrScript(dec)
-		n.w.mu.Lock()
-		bal := n.Cfg.BtcBalance
-		n.w.mu.Unlock()
-		if amount > bal {
-			return nil, fmt.Errorf("Could not afford %dsat using all %d available UTXOs", amount, 1)
-		}
-		inputs, swapIdx, changeOuts := 1, 0, 1
-		if b.FundingLayout != nil {
-			inputs, swapIdx, changeOuts = b.FundingLayout()
-		}
-		nested := b.NestedInputs != nil && b.NestedInputs()
-		unsigned := wire.NewMsgTx(2)
-		for i := 0; i < inputs; i++ {
-			var h chainhash.Hash
-			rand.Read(h[:])
-			unsigned.AddTxIn(wire.NewTxIn(wire.NewOutPoint(&h, uint32(i)), nil, nil))
-		}
-		total := changeOuts + 1
-		if swapIdx >= total {
-			swapIdx = total - 1
-		}
-		var extraVal int64
-		var extraBefore bool
-		if b.SameScriptExtra != nil {
-			extraVal, extraBefore = b.SameScriptExtra(amount)
-		}
-		outSum := int64(0)
-		add := func(v int64, s []byte) { unsigned.AddTxOut(wire.NewTxOut(v, s)); outSum += v }
-		for i := 0; i < total; i++ {
-			if i == swapIdx {
-				if extraVal > 0 && extraBefore {
-					add(extraVal, pk)
-				}
-				add(int64(amount), pk)
-				if extraVal > 0 && !extraBefore {
-					add(extraVal, pk)
-				}
-				continue
-			}
-			_, cs := b.newAddr()
-			v := b.ChangeValue
-			if v == 0 {
-				v = 10_000 + int64(i)*777
-			}
-			add(v, cs)
-		}
-		// wallet inputs: native segwit, or P2SH-wrapped segwit (an old wallet): the latter get a scriptSig when
-		// signed, so the txid of the signed transaction differs from the hash of the unsigned one
-		packet, err := psbt.NewFromUnsignedTx(unsigned.Copy())
-		if err != nil {
-			return nil, err
-		}
-		fee := int64(700 + 150*inputs)
-		signed := unsigned.Copy()
-		for i := range unsigned.TxIn {
-			var kh [20]byte
-			rand.Read(kh[:])
-			p2wpkh, _ := txscript.NewScriptBuilder().AddOp(txscript.OP_0).AddData(kh[:]).Script()
-			utxoScript := p2wpkh
-			if nested {
-				utxoScript, _ = txscript.NewScriptBuilder().AddOp(txscript.OP_HASH160).AddData(btcutil.Hash160(p2wpkh)).AddOp(txscript.OP_EQUAL).Script()
-				packet.Inputs[i].RedeemScript = p2wpkh
-				signed.TxIn[i].SignatureScript, _ = txscript.NewScriptBuilder().AddData(p2wpkh).Script()
-			}
-			val := (outSum + fee) / int64(inputs)
-			if i == 0 {
-				val += (outSum + fee) % int64(inputs)
-			}
-			packet.Inputs[i].WitnessUtxo = wire.NewTxOut(val, utxoScript)
-			signed.TxIn[i].Witness = wire.TxWitness{bytes.Repeat([]byte{0x30}, 71), bytes.Repeat([]byte{0x02}, 33)}
-		}
-		b64, err := packet.B64Encode()
-		if err != nil {
-			return nil, err
-		}
-		pr := &clnPrepared{unsigned: serTx(unsigned), signed: serTx(signed), txid: signed.TxHash().String(), psbt: b64, amount: amount}
 		f.mu.Lock()
 		f.prep[pr.txid] = pr
 		f.mu.Unlock()
